@@ -45,7 +45,7 @@ Definition p_fail : P (option (nat * fkind)) :=
 Definition p_wcase : P wcase :=
   sv <- pBool ;; ub <- pN ;; po <- pBool ;; ng <- pBool ;;
   ks <- pList pBytes ;; fa <- p_fail ;; ops <- pList p_cop ;;
-  ret {| wk_cfg := {| w_server := sv; w_bufsize := eff_wbuf (if (0 <? ub) && (ub <? c_maxControlFramePayloadSize) then c_maxControlFramePayloadSize else ub); w_pooled := po; w_negotiated := ng |};
+  ret {| wk_cfg := {| w_server := sv; w_bufsize := eff_wbuf ub; w_pooled := po; w_negotiated := ng |};
          wk_keys := ks; wk_fail := fa; wk_ops := ops |}.
 
 Definition e_werr (e:option werror) : N :=
